@@ -348,6 +348,9 @@ ERR_CLAUSES = [
     ('data-unknown-statement', '<div data-tal-contnt="a">k</div>'),
     ('data-bad-define', '<div data-tal-define="x">k</div>'),
     ('unknown-statement-renamed-prefix', '<div xmlns:t="http://xml.zope.org/namespaces/tal" t:contnt="a">k</div>'),
+    # tal:case on the element that opens the switch (no enclosing switch)
+    ('case-on-the-switch-element', '<div tal:switch="x" tal:case="1">A</div>'),
+    ('case-without-switch', '<div><p tal:case="1">A</p></div>'),
     # metal:fill-slot outside the element that uses / extends a macro
     ('fill-slot-after-extend-macro', '<div><u metal:extend-macro="m"/><p metal:fill-slot="x">f</p></div>'),
     ('fill-slot-after-use-macro', '<div><u metal:use-macro="m"/>\n<p metal:fill-slot="x">f</p></div>'),
